@@ -24,6 +24,8 @@ enum Step {
 	WsSlowSub(usize),
 	/// a call that never finishes; its connection is left by the peer after the stop (possibly after one more frame)
 	WsHang(usize),
+	/// a frame larger than max_request_body_size (refused with -32007; the connection goes on)
+	WsOversized(usize),
 	HttpCall(usize, &'static str),
 	Settle(u32),
 	WsDisconnect(usize),
@@ -48,7 +50,8 @@ pub async fn scenario() {
 	let mut steps = Vec::new();
 	for _ in 0..n_steps {
 		let m = *rt::pick("method", &["echo", "aecho", "aecho", "becho"]);
-		steps.push(match rt::draw("step", 15) {
+		steps.push(match rt::draw("step", 16) {
+			15 if n_ws > 0 => Step::WsOversized(rt::draw("c", n_ws as u32) as usize),
 			12 | 13 if n_ws > 0 => Step::WsSlowSub(rt::draw("c", n_ws as u32) as usize),
 			14 if n_ws > 0 && !sweep_base => Step::WsHang(rt::draw("c", n_ws as u32) as usize),
 			0..=4 if n_ws > 0 => Step::WsCall(rt::draw("c", n_ws as u32) as usize, m),
@@ -66,7 +69,7 @@ pub async fn scenario() {
 	steps.insert(stop_at, Step::Stop);
 	rt::event("plan", format!("entry={entry:?} buf_cap={buf_cap} frag={frag:?} ws={n_ws} http={n_http} steps={steps:?}"));
 
-	let mut world = World::new(SrvCfg { entry, buf_cap, frag, auto_sub: true, ..Default::default() });
+	let mut world = World::new(SrvCfg { entry, buf_cap, frag, auto_sub: true, max_req: 1024, ..Default::default() });
 	world.start().await;
 	// ---------------- connections ----------------
 	let mut ws: Vec<WsConn> = Vec::new();
@@ -141,6 +144,14 @@ pub async fn scenario() {
 						sent_ws.push((*c, nonce, st));
 						hang_conns.push(*c);
 					}
+				}
+			}
+			Step::WsOversized(c) if *c < n_ws => {
+				if let Some(tx) = ws[*c].tx.as_mut() {
+					let msg = format!("{{\"jsonrpc\":\"2.0\",\"id\":{nonce},\"method\":\"echo\",\"params\":[\"{}\"]}}", "x".repeat(2000));
+					rt::event("dir-ws-oversized", format!("c{c} {} bytes", msg.len()));
+					rt::probe("oversized_frame");
+					let _ = world::ws_send(tx, msg.as_bytes(), false).await;
 				}
 			}
 			Step::HttpCall(c, m) => {
